@@ -56,6 +56,8 @@ class Ctx:
         self.assumptions = list(COMMON_ASSUMPTIONS)
         self.floors = []
         self.floor_failures = []
+        self.programs = None
+        self.disagreements = None
 
     # --- recording
     def ob(self, rule, instance, ok, detail=None):
@@ -179,6 +181,9 @@ def finish(ctx, t0, explanation, technique):
         'wall_s': round(time.time() - t0, 3),
         'violations': len(new),
     }
+    if ctx.programs is not None:
+        ev['coverage']['programs'] = ctx.programs
+        ev['coverage']['disagreements_checked'] = ctx.disagreements
     with open(os.path.join(evdir, f'{ctx.prop}.json'), 'w') as fh:
         json.dump(ev, fh, indent=1, default=str)
     print(f'{ctx.prop}: {n_ok}/{n_ob} obligations discharged, {len(ctx.findings)} finding(s) '
